@@ -361,6 +361,15 @@ class Check(FormulaCheck):
                 self.expect('C11/%s:differs-from-statistic-over-selected%s%s%s' % (fn, wt, tg, neg), ok, formula=f[:400], got=g, expected=ref if ref == 'ERR' else float(ref), selected=len(sel if fn.endswith('IFS') else s0))
                 rec.cov('conditional', (fn, 'empty' if tg else 'nonempty', 'wild' if wt else 'plain'))
             rec.sample({'formula': checks[0][1][:200]})
+            # a range of one cell may reach the function as the bare value (a host answering a 1x1 range with its content): the statistics over
+            # "exactly the selected items" of a one-item range
+            v1 = rnd.choice([rnd.randint(-9, 9), round(rnd.uniform(-20, 20), 1), 0])
+            c1, p1, _ = self.criterion(rnd, [v1, v1 + 1, v1 - 1])
+            sel1 = p1(v1)
+            for fn, f, ref in (('SUMIF', 'SUMIF(v_one,%s)' % hx.strlit(c1), Fr(v1) if sel1 else Fr(0)), ('COUNTIF', 'COUNTIF(v_one,%s)' % hx.strlit(c1), Fr(1 if sel1 else 0))):
+                g = self.ev(f, v_one=v1)
+                self.expect('C11/%s:differs-from-statistic-over-selected:one-cell-range-given-as-its-value' % fn, finite(g) and close(g, ref), formula=f, value=v1, criterion=c1, got=g, expected=float(ref))
+                rec.nt(('scalar-range', fn, v1, c1))
 
     # ------------------------------------------------------------------ error items
     def c_errors(self, spec, rec):
